@@ -675,8 +675,14 @@ def adt_signature_table(d, public=False):
     tys = d["types"]
     out = {}
     for a in d["adts"]:
-        if bool(a.get("reachable")) != public or a.get("generic"):
+        if bool(a.get("reachable")) != public:
             continue
+        if a.get("generic"):
+            # generic over lifetimes only (`Printer<'a>`): one type, like a non-generic one
+            ts_ = tys[a["ty"]]["s"] if isinstance(a.get("ty"), int) and a["ty"] < len(tys) else ""
+            args_ = ts_[ts_.index("<") + 1:ts_.rindex(">")].split(",") if "<" in ts_ and ts_.endswith(">") else [""]
+            if not all(x.strip().startswith("'") for x in args_):
+                continue
         vs = []
         for v in a["variants"]:
             vs.append("%d:%s" % (len(v["fields"]), ",".join(tys[f["ty"]]["s"] for f in v["fields"])))
